@@ -42,6 +42,9 @@ def correspondence(ctx):
             psf = psf * float(rng.uniform(0.6, 1.8))     # not normalised
         for i in range(4 if quick else 10):
             scenes.append(RC.gen_scene(rng, kind, N, psf, mode="single", types=[RC.PROFILE_TYPES[(i + N) % 7]], **opts))
+    for npr in (0, 15):
+        psf = RC.asym_psf(rng, 5)
+        scenes.append(RC.gen_scene(rng, "hybrid", 16, psf, mode="single", types=["sersic"], npr=npr))
     dis, stats = RC.render_tie(ctx, scenes)
     # amplitude table rows at knots: Lean direct-decomposition model vs the real table (float64)
     ks = [0, 7, 19, 33, 49] if quick else list(range(0, 50, 3))
@@ -143,6 +146,8 @@ def gen_flux_scenes(ctx, n_per_kind):
                 lo_c, hi_c = min(m, (N - 1) / 2), max(N - 1 - m, (N - 1) / 2)
                 p["xc"] = float(rng.uniform(lo_c, hi_c))
                 p["yc"] = float(rng.uniform(lo_c, hi_c))
+            if kind == "hybrid":
+                sc["npr"] = int([0, 1, 3, 3][i % 4])       # boundary option 0 (all components in Fourier space) included
             if t == "pointsource":
                 p["xc"] = float(rng.uniform(s, N - 1 - s))
                 p["yc"] = float(rng.uniform(s, N - 1 - s))
